@@ -37,10 +37,11 @@ def main():
         rec = {'id': m['id'], 'check': m['check'], 'what': m['what'], 'expect': m.get('expect', 'fail')}
         try:
             if tests:
-                rc, o = sh('timeout 240 cargo test --offline 2>&1 | grep -E "^test result|error(\\[|:)" ; echo "rc=${PIPESTATUS[0]}"', cwd='/repo')
+                rc, o = sh('timeout -k 5 240 cargo test --offline 2>&1 | grep -E "^test result|error(\\[|:)" ; echo "rc=${PIPESTATUS[0]}"', cwd='/repo')
                 failed = ('FAILED' in o) or ('error' in o) or ('failed' in o and ' 0 failed' not in o.replace('; 0 failed', ' 0 failed'))
                 bad = [l for l in o.splitlines() if 'test result' in l and '0 failed' not in l]
                 rec['baseline_tests'] = 'hang (killed after 240 s)' if 'rc=124' in o else ('fail' if (bad or 'error' in o) else 'pass')
+            sh("for p in $(pgrep -f '^/repo/target/debug/deps/'); do kill -9 $p; done")
             t0 = time.time()
             rc, o = sh(f'./check {m["check"]} --tier quick --budget-s 60', cwd='/verif')
             rec['exit'] = rc
